@@ -41,6 +41,13 @@
 //!    classes of the "be" variant run every 3rd state instead of all of them.
 //!  * NOT generated (architecturally UNPREDICTABLE / UNDEFINED): write-back with Rn == Rt (Rn != 31), LDP with Rt == Rt2,
 //!    shift type 0b11 for add/sub, imm6 >= 32 with sf = 0, hw >= 2 with sf = 0, extended-register imm3 > 4, branch to self.
+//! KNOWN DEFECT TAGGING: a disagreement is additionally re-checked against a DELIBERATELY DEFECTIVE reference model of the one
+//! listed known defect C03-D1 (SUBS sets C := borrow; everything else, including B.cond and later instructions reading that
+//! C, per the Arm pseudocode). It carries the extra field `"known_defect":"C03-D1"` if and only if EVERY compared location
+//! (X0..X30, SP, NZCV, memory window, next pc) equals what that defective model yields and differs from the correct model.
+//! Tagged lines have their own cap (3 per op and defect), are NOT counted in `disagreements` / `per_op` and are totalled in the
+//! summary field `tagged_known_defect`; tools/verdict.py turns them into ONE KNOWN-FINDING line while the defect is listed in
+//! /verif/known_findings.json and treats an unlisted tag as a violation. Untagged disagreements stay violations.
 //! Output: one JSON line per printed disagreement (<= 3 per op, all counted; C03_WITNESS_PRINT=n overrides, C03_WITNESS_OP=substr
 //! restricts the ops), then one summary line. Exit code 0 always.
 use falcon::architecture;
@@ -94,6 +101,13 @@ fn related(op: &str) -> String {
     v.sort(); v.dedup();
     format!("[{}]", v.iter().map(|s| format!("\"{}\"", s)).collect::<Vec<_>>().join(","))
 }
+
+/// KNOWN DEFECT C03-D1 (listed in /verif/known_findings.json): SUBS sets the IL scalar c to the BORROW (C = 1 iff a < b
+/// unsigned) instead of the Arm ARM's NOT borrow; the crate's own test aarch64::test::subs_xn pins that value, so the lifter is
+/// not repaired. While this switch is on, `exec` is the DELIBERATELY DEFECTIVE reference model: SUBS writes C := borrow,
+/// everything else - including B.cond and every later instruction that reads that C - follows the Arm pseudocode.
+static D1_MODEL: std::sync::atomic::AtomicBool = std::sync::atomic::AtomicBool::new(false);
+fn d1() -> bool { D1_MODEL.load(std::sync::atomic::Ordering::Relaxed) }
 
 fn mask(n: u32) -> u64 { if n >= 64 { u64::MAX } else { (1u64 << n) - 1 } }
 fn sint(v: u64, n: u32) -> i128 { let v = v & mask(n); if (v >> (n - 1)) & 1 == 1 { v as i128 - (1i128 << n) } else { v as i128 } }
@@ -418,7 +432,7 @@ fn exec(c: &mut Cpu, img: &Image, be: bool, i: &I, t: &mut Touched) -> Result<()
             let op1 = if rn == 31 { c.spr(n) } else { c.xr(rn, n) };
             let (op2, cin) = if sub { (!imm, true) } else { (imm, false) };
             let (r, nf, zf, cf, vf) = add_with_carry(op1, op2, cin, n);
-            if s { c.n = nf; c.z = zf; c.c = cf; c.v = vf; }
+            if s { c.n = nf; c.z = zf; c.c = if sub && d1() { !cf } else { cf }; c.v = vf; }
             if rd == 31 && !s { c.spw(n, r) } else { c.xw(rd, n, r) }
         }
         I::AddSubSh { sf, sub, s, sh, rm, imm6, rn, rd } => {
@@ -427,7 +441,7 @@ fn exec(c: &mut Cpu, img: &Image, be: bool, i: &I, t: &mut Touched) -> Result<()
             let op2 = shift_reg(c.xr(rm, n), sh, imm6 as u32, n);
             let (op2, cin) = if sub { (!op2, true) } else { (op2, false) };
             let (r, nf, zf, cf, vf) = add_with_carry(op1, op2, cin, n);
-            if s { c.n = nf; c.z = zf; c.c = cf; c.v = vf; }
+            if s { c.n = nf; c.z = zf; c.c = if sub && d1() { !cf } else { cf }; c.v = vf; }
             c.xw(rd, n, r)
         }
         I::AddSubExt { sf, sub, s, rm, opt, imm3, rn, rd } => {
@@ -436,7 +450,7 @@ fn exec(c: &mut Cpu, img: &Image, be: bool, i: &I, t: &mut Touched) -> Result<()
             let op2 = extend_reg(c.xr(rm, n), opt, imm3 as u32, n);
             let (op2, cin) = if sub { (!op2, true) } else { (op2, false) };
             let (r, nf, zf, cf, vf) = add_with_carry(op1, op2, cin, n);
-            if s { c.n = nf; c.z = zf; c.c = cf; c.v = vf; }
+            if s { c.n = nf; c.z = zf; c.c = if sub && d1() { !cf } else { cf }; c.v = vf; }
             if rd == 31 && !s { c.spw(n, r) } else { c.xw(rd, n, r) }
         }
         I::MovW { sf, opc, hw, imm16, rd } => {
@@ -894,6 +908,26 @@ fn diff(exp: &Cpu, img: &Image, got: &Outcome) -> Vec<(String, String, String)> 
     d
 }
 
+/// Is this disagreement an instance of a LISTED known defect? Re-runs the instruction(s) on the deliberately defective
+/// reference model of that defect and compares EVERY compared location (X0..X30, SP, N Z C V, the memory window, the next
+/// pc). Only called when the correct model disagrees, so a tag means: differs from the Arm pseudocode, and differs in
+/// precisely the documented way. Anything else stays untagged = a violation.
+///   C03-D1: SUBS sets C := borrow (see D1_MODEL).
+fn classify(case: &Case, st: &Cpu, img: &Image, be: bool, a: u64, b: u64, len: u64, got: &Outcome) -> Option<&'static str> {
+    if !case.insns.iter().any(|i| matches!(*i, I::AddSubImm { sub: true, s: true, .. } | I::AddSubSh { sub: true, s: true, .. } | I::AddSubExt { sub: true, s: true, .. })) { return None; }
+    D1_MODEL.store(true, std::sync::atomic::Ordering::Relaxed);
+    let mut alt = st.clone();
+    let mut t = Touched { lo: 0, hi: 0 };
+    let mut ok = true;
+    for (k, i) in case.insns.iter().enumerate() {
+        if alt.pc != a + 4 * k as u64 { ok = false; break; }
+        if exec(&mut alt, img, be, i, &mut t).is_err() { ok = false; break; }
+    }
+    D1_MODEL.store(false, std::sync::atomic::Ordering::Relaxed);
+    if !ok || alt.pc < b || alt.pc >= b + CODE_LEN || alt.pc % 4 != 0 || (alt.pc >= a && alt.pc < a + 4 * len) { return None; }
+    if diff(&alt, img, got).is_empty() { Some("C03-D1") } else { None }
+}
+
 fn regs_of(i: &I) -> Vec<u8> {
     match *i {
         I::AddSubImm { rn, rd, .. } => vec![rd, rn],
@@ -933,6 +967,9 @@ fn main() {
     let all = cases();
     let mut per_op: BTreeMap<String, OpStat> = BTreeMap::new();
     let (mut evals, mut found, mut rejected, mut encodings, mut skipped) = (0u64, 0u64, 0u64, 0u64, 0u64);
+    // disagreements classified as instances of a listed known defect: (op, defect id) -> (count, printed); printed under their OWN
+    // cap (3 per op and defect), NOT counted in `disagreements` / `per_op`
+    let mut tagged: BTreeMap<(String, String), (u64, u64)> = BTreeMap::new();
     for var in [Var::Le, Var::Be] { for b in [0u64, 0x10000] {
         let a = b + A_OFF;
         let be = var == Var::Be;
@@ -990,9 +1027,19 @@ fn main() {
                     Ok(Ok(g)) => {
                         let d = diff(&exp, &img, &g);
                         if let Some((f, e, gv)) = d.first() {
-                            found += 1;
                             let detail = d.iter().map(|(f, e, g)| format!("{} expected {} got {}", f, e, g)).collect::<Vec<_>>().join("; ");
-                            report(stat, st, f, e, gv, "value", &detail);
+                            if let Some(defect) = classify(case, st, &img, be, a, b, len, &g) {
+                                let ent = tagged.entry((case.op.clone(), defect.to_string())).or_insert((0, 0));
+                                ent.0 += 1;
+                                if ent.1 < 3 {
+                                    ent.1 += 1;
+                                    println!("{{\"witness\":true,\"op\":\"{}\",\"ops_related\":{},\"variant\":\"{}\",\"encoding\":\"{}\",\"asm\":\"{}\",\"state\":{},\"field\":\"{}\",\"expected\":\"{}\",\"got\":\"{}\",\"kind\":\"value\",\"detail\":\"{}\",\"known_defect\":\"{}\"}}",
+                                        case.op, related(&case.op), var.name(), enc_s, esc(&asm_s), state_json(case, st), f, esc(e), esc(gv), esc(&detail), defect);
+                                }
+                            } else {
+                                found += 1;
+                                report(stat, st, f, e, gv, "value", &detail);
+                            }
                         }
                     }
                     Ok(Err(e)) => { found += 1; report(stat, st, "execution", &format!("next pc 0x{:x}", exp.pc), "error", "exec_error", &e); }
@@ -1010,6 +1057,10 @@ fn main() {
     }).collect();
     let rej: Vec<String> = per_op.iter().filter(|(_, v)| v.rejected > 0).map(|(k, v)| format!("\"{}\":{}", k, v.rejected)).collect();
     let rex: Vec<String> = per_op.iter().filter_map(|(k, v)| v.rejected_example.as_ref().map(|e| format!("\"{}\":\"{}\"", k, e))).collect();
-    println!("{{\"summary\":true,\"evaluations\":{},\"disagreements\":{},\"per_op\":{{{}}},\"rejected_encodings\":{},\"rejected_per_op\":{{{}}},\"rejected_examples\":{{{}}},\"encodings\":{},\"skipped_states\":{}}}",
-        evals, found, per.join(","), rejected, rej.join(","), rex.join(","), encodings, skipped);
+    let mut tag_total: BTreeMap<String, u64> = BTreeMap::new();
+    for ((_, d), (n, _)) in tagged.iter() { *tag_total.entry(d.clone()).or_insert(0) += n; }
+    let tag_s: Vec<String> = tag_total.iter().map(|(d, n)| format!("\"{}\":{}", d, n)).collect();
+    let tag_op: Vec<String> = tagged.iter().map(|((o, d), (n, _))| format!("\"{}/{}\":{}", o, d, n)).collect();
+    println!("{{\"summary\":true,\"evaluations\":{},\"disagreements\":{},\"tagged_known_defect\":{{{}}},\"tagged_by_op\":{{{}}},\"per_op\":{{{}}},\"rejected_encodings\":{},\"rejected_per_op\":{{{}}},\"rejected_examples\":{{{}}},\"encodings\":{},\"skipped_states\":{}}}",
+        evals, found, tag_s.join(","), tag_op.join(","), per.join(","), rejected, rej.join(","), rex.join(","), encodings, skipped);
 }
